@@ -321,6 +321,10 @@ def run_check(mod, tier="quick", batch_seed=0, budget_s=None, n_procs=None, max_
         f"known={len(known_lines)} harness_failures={len(harness)} wall={wall:.1f}s exit={exit_code}",
         flush=True,
     )
+    if os.environ.get("VERIF_DEBUG"):
+        c = Counter((o.get("message") or "")[:90] for o in outcomes.values() if o.get("status") == "uninformative")
+        for m, n_ in c.most_common(8):
+            print(f"   uninformative x{n_}: {m}")
     zero = [p for p, v in (cov.get("probe_hits") or {}).items() if v == 0]
     if zero:
         print(f"[{prop}] WARNING probes at zero: {zero}")
